@@ -230,11 +230,19 @@ void checkBatch(const std::vector<std::string>& paths, const VerInfo& v, Slot sl
 	{
 		Model m;
 		R_phase("build");
+		// every third batch is built in an object that has loaded a file with the terrain option before: a created model is an ordinary one
+		uint64_t hh = hashStr(paths.empty() ? std::string() : paths[0]) + (uint64_t)slot + paths.size();
+		bool used = hh % 3 == 0;
+		if (used) {
+			auto& rs = realSamples();
+			loadNif(m.nif, rs[(hh / 3) % rs.size()].bytes, true);
+			R_stat("cleanups_in_objects_that_held_a_terrain_file");
+		}
 		if (!buildModel(m, ver, slot, paths)) { R_stat("model_rejected"); return; }
 		R_phase("trim");
 		m.nif.TrimTexturePaths();
 		auto out1 = readBack(m.nif, slot, paths.size());
-		judge(paths, out1, ob, false, slot, "TrimTexturePaths", v.n);
+		judge(paths, out1, ob, false, slot, used ? "TrimTexturePaths{object held a terrain file before Create}" : "TrimTexturePaths", v.n);
 		R_phase("trim-again");
 		m.nif.TrimTexturePaths();
 		auto out2 = readBack(m.nif, slot, paths.size());
@@ -331,7 +339,7 @@ MonReg reg({"C19", "exploration",
 			"path strings: exhaustively all sequences of up to 4 (quick) / 5 (thorough) tokens from {\\, /, space, ., a, :, textures, data} plus the empty string, and seeded random byte strings "
 			"(drive and UNC prefixes, non-UTF-8 bytes, CR/LF, nested 'textures' folders, lengths up to 4.5 KB). Each batch is stored in the texture-set slots of OB, SK and FO4 models and, "
 			"rotating, in the five effect-shader paths (SK/FO4/SSE) and the ten NiTexturingProperty/NiSourceTexture slots (OB); results are read with GetTextureSlot after TrimTexturePaths, "
-			"after a second TrimTexturePaths (idempotence) and after save+Load with and without the terrain option. Oracle: regex-free reference model + independent postconditions "
+			"after a second TrimTexturePaths (idempotence; every third model is created in an object that loaded a terrain file before) and after save+Load with and without the terrain option. Oracle: regex-free reference model + independent postconditions "
 			"(no surrounding whitespace, no '/', no '\\\\\\\\', textures\\\\ / Data\\\\ prefix, blank->empty). Linux std::filesystem semantics. Non-trivial = path the clean-up changes to a non-empty result.",
 			[] { Plan p = plan(); return 1 + (enumCount(p.maxTokens) + PER_CASE - 1) / PER_CASE + p.randomCases; }, run, 4, 300.0, false, false, nullptr});
 } // namespace
